@@ -14,9 +14,10 @@
     * `prepareD_ok_iff_partial` + `hidden_attr_refutes_completeness` — the full-strength statement
       ("EVERY injected attribute is validated") holds exactly when no attribute is hidden from the
       helper; the dunder-like class attribute `__x__` refutes it on the real code (finding D21/C14);
-    * `accepted_project_injection_sound` (+ `_partial`, refutations) — at run time the injection step of
-      an accepted project finds every value, assigns only declared attributes, and assigns EVERY
-      declared attribute when none is hidden and no fixture is injected twice in the same suite.
+    * `accepted_project_injection_sound` (+ `_partial`, refutation) — at run time the injection step of
+      an accepted project finds every value and assigns EXACTLY the discovered attributes (every one,
+      also when a fixture is injected through several attributes: D35, repaired), hence EVERY declared
+      attribute when none is hidden.
 
   Property theorems only; helper lemmas in `Lemmas/Inject.lean`.  The finite decision `discovers` is
   re-extracted from the real code on every run (`Generated/C14TablesCheck.lean`).
@@ -55,17 +56,24 @@ theorem injectedNames_iff (attrs : List Attr) (x : String) :
 theorem injectedNames_nodup (attrs : List Attr) : (injectedNames attrs).Nodup :=
   Inject.injectedNames_nodup attrs
 
-/-- `Suite.inject_fixtures` only ever assigns declared, discovered attributes, each with the value of the
-    fixture it names. -/
-theorem assigned_sound (attrs : List Attr) (p : String × String) (h : p ∈ loadInjected attrs) :
-    ∃ a ∈ attrs, a.discovered = true ∧ a.key = p.1 ∧ a.name = p.2 :=
-  mem_loadInjected attrs p h
+/-- **The dict of `_load_injected_fixtures`** (as repaired by D35): attribute `n` is listed under fixture `x`
+    iff some discovered declaration `n = lcc.inject_fixture(x)` exists — `Suite.inject_fixtures` gives an
+    attribute the value of exactly the fixture it names. -/
+theorem assigned_sound (attrs : List Attr) (x n : String) :
+    (∃ vs, (x, vs) ∈ loadInjected attrs ∧ n ∈ vs) ↔
+      ∃ a ∈ attrs, a.discovered = true ∧ a.key = x ∧ a.name = n :=
+  has_loadInjected attrs x n
 
-/-- When no fixture is injected twice in the suite, EVERY discovered attribute is assigned. -/
-theorem assigned_complete (attrs : List Attr) (hnd : ((attrs.filter Attr.discovered).map Attr.key).Nodup)
-    (a : Attr) (ha : a ∈ attrs) (hd : a.discovered = true) : (a.key, a.name) ∈ loadInjected attrs := by
-  rw [loadInjected_of_nodup attrs hnd]
-  exact List.mem_map.mpr ⟨a, List.mem_filter.mpr ⟨ha, hd⟩, rfl⟩
+/-- **`Suite.inject_fixtures` assigns exactly the discovered attributes** — every one of them, also when
+    several attributes of the suite inject the same fixture (D35, repaired). -/
+theorem assigned_iff (attrs : List Attr) (n : String) :
+    n ∈ assigned attrs ↔ ∃ a ∈ attrs, a.discovered = true ∧ a.name = n :=
+  mem_assigned attrs n
+
+/-- EVERY discovered attribute is assigned (no guard on repeated fixture names any more). -/
+theorem assigned_complete (attrs : List Attr) (a : Attr) (ha : a ∈ attrs) (hd : a.discovered = true) :
+    a.name ∈ assigned attrs :=
+  (mem_assigned attrs a.name).mpr ⟨a, ha, hd, rfl⟩
 
 /-! ## B. Validation over declared suites -/
 
@@ -212,9 +220,9 @@ theorem guard_admits (a : Attr) (h : ¬ (a.shape = .dunder ∧ a.place ≠ .modu
 /-- **The injection step cannot fail and assigns what was declared.**  For an accepted declared project,
     every suite `d` that gets initialised and every test of `d` that really runs: the pre_run, session
     and suite instances set up, `suite.inject_fixtures(get_fixture_results(get_injected_fixture_names()))`
-    finds every value (no `LookupError` / `AssertionError`), assigns only declared discovered attributes,
-    and — when no fixture is injected twice in `d` — assigns EVERY discovered attribute of `d`, for
-    every naming shape and place of assignment. -/
+    finds every value (no `LookupError` / `AssertionError`) and assigns EXACTLY the discovered attributes
+    of `d` — every one of them, for every naming shape and place of assignment, also when several
+    attributes inject the same fixture (D35, repaired). -/
 theorem accepted_project_injection_sound {R : Registry} (wf : WF R) (S : List DSuite) (fd : Bool)
     (hdeps : checkDependencies R = .ok ())
     (hsuites : checkFixturesInSuites R (toFixtureSuites (lowerL S)) = .ok ())
@@ -228,9 +236,7 @@ theorem accepted_project_injection_sound {R : Registry} (wf : WF R) (S : List DS
         enter R [] .preRun Ipre = .ok c1 ∧ enter R c1 .session Isess = .ok c2 ∧
         enter R c2 .suite Isuite = .ok c3 ∧
         injectStep c3 d.attrs = .ok (assigned d.attrs) ∧
-        (∀ n ∈ assigned d.attrs, ∃ a ∈ d.attrs, a.discovered = true ∧ a.name = n) ∧
-        (((d.attrs.filter Attr.discovered).map Attr.key).Nodup →
-          ∀ a ∈ d.attrs, a.discovered = true → a.name ∈ assigned d.attrs) := by
+        (∀ n, n ∈ assigned d.attrs ↔ ∃ a ∈ d.attrs, a.discovered = true ∧ a.name = n) := by
   have hs : (inh, d.toFixture) ∈ withInhSuites false (toFixtureSuites (lowerL S)) := by
     rw [withInh_lowerL]
     exact List.mem_map.mpr ⟨(inh, d), hd, rfl⟩
@@ -238,7 +244,7 @@ theorem accepted_project_injection_sound {R : Registry} (wf : WF R) (S : List DS
     rw [toFixture_tests]; exact List.mem_map.mpr ⟨t, ht, rfl⟩
   obtain ⟨Ipre, Isess, Isuite, _, a1, a2, a3, _, c1, c2, c3, _, e1, e2, e3, _, _, l2⟩ :=
     C14.accepted_project_run_sound wf _ fd hdeps hsuites inh d.toFixture hs t.toFixture ht' hruns
-  refine ⟨Ipre, Isess, Isuite, a1, a2, a3, c1, c2, c3, e1, e2, e3, ?_, ?_, ?_⟩
+  refine ⟨Ipre, Isess, Isuite, a1, a2, a3, c1, c2, c3, e1, e2, e3, ?_, mem_assigned d.attrs⟩
   · unfold injectStep
     have : forE (injectedNames d.attrs) (getResult c3) = .ok () := by
       rw [forE_ok_iff]
@@ -247,38 +253,31 @@ theorem accepted_project_injection_sound {R : Registry} (wf : WF R) (S : List DS
       rw [toFixture_fixtures]
       exact mem_oset.mpr (List.mem_append.mpr (.inl hn))
     rw [this]
-  · intro n hn
-    obtain ⟨p, hp, rfl⟩ := List.mem_map.mp hn
-    obtain ⟨a, ha, hda, _, hname⟩ := mem_loadInjected _ p hp
-    exact ⟨a, ha, hda, hname⟩
-  · intro hnd a ha hda
-    exact List.mem_map.mpr ⟨(a.key, a.name), assigned_complete _ hnd a ha hda, rfl⟩
 
 /-
   FULL-STRENGTH statement of the property's last sentence for injected attributes — kept visible, NOT a
   theorem: "in an accepted project EVERY attribute holding `lcc.inject_fixture(...)` of an initialised
-  suite has received its fixture's value when the tests run".  Refuted twice on the real code:
-  `hidden_attr_refutes_injection` (dunder-like class attribute, D21/C14) and
-  `duplicate_refutes_injection` (two attributes injecting the same fixture: the dict keeps one, D35).
+  suite has received its fixture's value when the tests run".  Refuted on the real code by
+  `hidden_attr_refutes_injection` (dunder-like class attribute, D21/C14, open).  The second refutation
+  (two attributes injecting the same fixture, D35) is gone with the repair of /repo: see
+  `same_fixture_twice_both_assigned`.
 -/
 
-/-- **`_partial` form** of the statement above, under the exact guards: no attribute of the suite is
-    hidden from `get_object_attributes` and no fixture is injected twice in the suite — then EVERY
-    declared attribute is assigned. -/
+/-- **`_partial` form** of the statement above, under the exact guard: no attribute of the suite is
+    hidden from `get_object_attributes` (no dunder-like class attribute, D21) — then EVERY declared
+    attribute is assigned. -/
 theorem accepted_project_injection_sound_partial {R : Registry} (wf : WF R) (S : List DSuite) (fd : Bool)
     (hdeps : checkDependencies R = .ok ())
     (hsuites : checkFixturesInSuites R (toFixtureSuites (lowerL S)) = .ok ())
     (inh : Bool) (d : DSuite) (hd : (inh, d) ∈ withInhDL false S)
     (t : PTest) (ht : t ∈ d.tests) (hruns : testRuns inh d.toFixture t.toFixture fd = true)
-    (hall : ∀ a ∈ d.attrs, a.discovered = true) (hnd : (d.attrs.map Attr.key).Nodup) :
+    (hall : ∀ a ∈ d.attrs, a.discovered = true) :
     ∃ Isuite c2 c3, scheduled R (usedInSuite inh d.toFixture fd) .suite = .ok Isuite ∧
       enter R c2 .suite Isuite = .ok c3 ∧ injectStep c3 d.attrs = .ok (assigned d.attrs) ∧
       ∀ a ∈ d.attrs, a.name ∈ assigned d.attrs := by
-  obtain ⟨_, _, Isuite, _, _, a3, _, c2, c3, _, _, e3, hi, _, hc⟩ :=
+  obtain ⟨_, _, Isuite, _, _, a3, _, c2, c3, _, _, e3, hi, hc⟩ :=
     accepted_project_injection_sound wf S fd hdeps hsuites inh d hd t ht hruns
-  refine ⟨Isuite, c2, c3, a3, e3, hi, fun a ha => hc ?_ a ha (hall a ha)⟩
-  have : d.attrs.filter Attr.discovered = d.attrs := List.filter_eq_self.mpr hall
-  rw [this]; exact hnd
+  exact ⟨Isuite, c2, c3, a3, e3, hi, fun a ha => (hc a.name).mpr ⟨a, ha, hall a ha, rfl⟩⟩
 
 /-! ## Non-vacuity and refutations: concrete declared projects -/
 section Examples
@@ -301,7 +300,7 @@ example : injectedNames [⟨"_s__c", .mangled, .body, some "db"⟩, ⟨"_x", .pr
     ⟨"db", .pub, .base, none⟩, ⟨"__h__", .dunder, .body, some "nx"⟩, ⟨"__m__", .dunder, .module, some "pre"⟩]
     = ["db", "pre"] := by decide
 example : loadInjected [⟨"_s__c", .mangled, .body, some "db"⟩, ⟨"_x", .priv, .init, some "db"⟩,
-    ⟨"db", .pub, .base, none⟩] = [("db", "db")] := by decide
+    ⟨"db", .pub, .base, none⟩] = [("db", ["_s__c", "_x", "db"])] := by decide
 -- an invalid fixture through every discovered shape: rejected, with the right class
 example : (prepareD (projWith [⟨"_x", .priv, .body, some "nx"⟩])).isOk = false := by decide
 example : (prepareD (projWith [⟨"_s__x", .mangled, .body, some "tmp"⟩])).isOk = false := by decide
@@ -337,12 +336,16 @@ theorem hidden_attr_refutes_injection :
     (prepareD (projWith [⟨"__x__", .dunder, .body, some "db"⟩])).isOk = true ∧
     assigned [⟨"__x__", .dunder, .body, some "db"⟩] = [] := by decide
 
-/-- **Refutation of the full-strength injection statement, 2** (finding D35): two attributes of a suite
-    injecting the same fixture — the dict `fixture name → attribute name` keeps the last one in `dir()`
-    order; `a` is never assigned. -/
-theorem duplicate_refutes_injection :
-    (prepareD (projWith [⟨"a", .pub, .body, some "db"⟩, ⟨"b", .pub, .body, some "db"⟩])).isOk = true ∧
-    assigned [⟨"a", .pub, .body, some "db"⟩, ⟨"b", .pub, .body, some "db"⟩] = ["b"] := by decide
+/-- **D35, repaired**: two (here three) attributes of a suite injecting the same fixture — the dict lists
+    all of them under the one fixture name, the injection step assigns every one (before the repair only
+    the last one in `dir()` order was set). -/
+theorem same_fixture_twice_both_assigned :
+    (prepareD (projWith [⟨"_b", .priv, .base, some "db"⟩, ⟨"a", .pub, .body, some "db"⟩, ⟨"db", .pub, .init, none⟩])).isOk = true ∧
+    loadInjected [⟨"_b", .priv, .base, some "db"⟩, ⟨"a", .pub, .body, some "db"⟩, ⟨"db", .pub, .init, none⟩]
+      = [("db", ["_b", "a", "db"])] ∧
+    injectedNames [⟨"_b", .priv, .base, some "db"⟩, ⟨"a", .pub, .body, some "db"⟩, ⟨"db", .pub, .init, none⟩] = ["db"] ∧
+    assigned [⟨"_b", .priv, .base, some "db"⟩, ⟨"a", .pub, .body, some "db"⟩, ⟨"db", .pub, .init, none⟩]
+      = ["_b", "a", "db"] := by decide
 
 end Examples
 
